@@ -164,3 +164,174 @@ def run(stmts, env, on_call=None):
             continue
         raise NotAffine("statement %s" % k)
     return env
+
+
+# ------------------------------------------------------------------------------------------------ paths with branches
+#
+# explore() follows every path through a statement list whose branch conditions are comparisons of affine forms.
+# A comparison the assumptions do not decide splits the exploration (both outcomes, each recorded as an assumption);
+# std::min / std::max of two affine forms split the same way.  Loops inside the region are not followed (NotAffine).
+
+class NeedSplit(Exception):
+    def __init__(self, d):
+        self.d = d
+
+
+def sign_of(d, assumptions):
+    """'<0' | '==0' | '>0' | '>=0' | '<=0' | '!=0' | None for the linear form d under the assumptions."""
+    if d.is_const():
+        return "<0" if d.c < 0 else ("==0" if d.c == 0 else ">0")
+    for (a, rel) in assumptions:
+        if a == d:
+            return rel
+        if a == -d:
+            return {"<0": ">0", ">0": "<0", ">=0": "<=0", "<=0": ">=0", "==0": "==0", "!=0": "!=0"}[rel]
+    return None
+
+
+def decide_cmp(op, d, assumptions):
+    """Truth of (lhs op rhs) with d = lhs - rhs, or None."""
+    s = sign_of(d, assumptions)
+    if s is None:
+        return None
+    table = {
+        "<": {"<0": True, "==0": False, ">0": False, ">=0": False, "<=0": None, "!=0": None},
+        "<=": {"<0": True, "==0": True, ">0": False, ">=0": None, "<=0": True, "!=0": None},
+        ">": {"<0": False, "==0": False, ">0": True, ">=0": None, "<=0": False, "!=0": None},
+        ">=": {"<0": False, "==0": True, ">0": True, ">=0": True, "<=0": None, "!=0": None},
+        "==": {"<0": False, "==0": True, ">0": False, ">=0": None, "<=0": None, "!=0": False},
+        "!=": {"<0": True, "==0": False, ">0": True, ">=0": None, "<=0": None, "!=0": True},
+    }
+    return table[op][s]
+
+
+def ev2(e, env, assumptions):
+    """ev() extended with std::min / std::max of affine forms (decided by the assumptions, else NeedSplit)."""
+    u = ir.unwrap_all_casts(e)
+    if isinstance(u, dict) and u.get("k") == "Call" and (ir.callee_qn(u) or "").split("<")[0] in ("std::min", "std::max") and len(u.get("args", [])) == 2:
+        a, b = ev2(u["args"][0], env, assumptions), ev2(u["args"][1], env, assumptions)
+        lt = decide_cmp("<", a - b, assumptions)
+        if lt is None:
+            raise NeedSplit(a - b)
+        is_min = (ir.callee_qn(u) or "").split("<")[0] == "std::min"
+        return (a if lt else b) if is_min else (b if lt else a)
+    if isinstance(u, dict) and u.get("k") == "Bin" and u.get("op") in ("+", "-"):
+        a, b = ev2(u["lhs"], env, assumptions), ev2(u["rhs"], env, assumptions)
+        return a + b if u["op"] == "+" else a - b
+    return ev(e, env)
+
+
+def cond_truth(c, env, assumptions):
+    """True / False for a branch condition, raising NeedSplit(d) when a comparison is open."""
+    u = unwrap(c)
+    if not isinstance(u, dict):
+        raise NotAffine("condition")
+    k = u.get("k")
+    if k == "Un" and u.get("op") == "!":
+        return not cond_truth(u["e"], env, assumptions)
+    if k == "Bin" and u.get("op") == "&&":
+        return cond_truth(u["lhs"], env, assumptions) and cond_truth(u["rhs"], env, assumptions)
+    if k == "Bin" and u.get("op") == "||":
+        return cond_truth(u["lhs"], env, assumptions) or cond_truth(u["rhs"], env, assumptions)
+    if k == "Lit":
+        return bool(u.get("v"))
+    if k == "Bin" and u.get("op") in ("<", "<=", ">", ">=", "==", "!="):
+        d = ev2(u["lhs"], env, assumptions) - ev2(u["rhs"], env, assumptions)
+        r = decide_cmp(u["op"], d, assumptions)
+        if r is None:
+            raise NeedSplit(d)
+        return r
+    cv = const_value(c)
+    if cv is not None:
+        return bool(cv)
+    raise NotAffine("condition %s" % ir.show(u)[:50])
+
+
+def explore(stmts, env0, on_call, assumptions=(), depth=0):
+    """All paths through a loop-free statement list.  Returns [(outcome, env, events, assumptions)] with outcome in
+    'end' | 'break' | 'continue' | 'return'.  on_call(call, env, events, assumptions) records events / applies summaries."""
+    if depth > 8:
+        raise NotAffine("too many case splits")
+    try:
+        env = dict(env0)
+        events = []
+        out = _run2(list(stmts), env, events, list(assumptions), on_call)
+        return [(out, env, events, tuple(assumptions))]
+    except NeedSplit as ns:
+        res = []
+        cur = sign_of(ns.d, assumptions)
+        options = {None: ("<0", ">=0"), ">=0": ("==0", ">0"), "<=0": ("<0", "==0"), "!=0": ("<0", ">0")}.get(cur)
+        if options is None:
+            raise NotAffine("comparison stays open under %s" % cur)
+        rest = tuple(a for a in assumptions if a[0] != ns.d and a[0] != -ns.d)
+        for rel in options:
+            res += explore(stmts, env0, on_call, rest + ((ns.d, rel),), depth + 1)
+        return res
+
+
+def _run2(stmts, env, events, assumptions, on_call):
+    for s in stmts:
+        u = unwrap(s)
+        if not isinstance(u, dict):
+            continue
+        k = u.get("k")
+        if k == "Block":
+            r = _run2(u.get("s", []), env, events, assumptions, on_call)
+            if r != "end":
+                return r
+            continue
+        if k == "Null":
+            continue
+        if k == "If":
+            t = cond_truth(u["cond"], env, assumptions)
+            br = u.get("then") if t else u.get("else")
+            if br is not None:
+                r = _run2(ir.stmts(br), env, events, assumptions, on_call)
+                if r != "end":
+                    return r
+            continue
+        if k == "Break":
+            return "break"
+        if k == "Continue":
+            return "continue"
+        if k == "Return":
+            events.append(("return", ev2(u["e"], env, assumptions) if u.get("e") is not None else None, None, None, u))
+            return "return"
+        if k == "Decl":
+            for v in u.get("vars", []):
+                if "n" not in v:
+                    continue
+                key = "l:%s#%s" % (v["n"], v["id"])
+                if v.get("init") is not None:
+                    try:
+                        env[key] = ev2(v["init"], env, assumptions)
+                    except NotAffine:
+                        env[key] = Lin.sym(key + "@decl")
+                else:
+                    env[key] = Lin.sym(key + "@uninit")
+            continue
+        if k == "Bin" and u.get("op", "").endswith("=") and u["op"] not in ("==", "!=", "<=", ">="):
+            key = key_of(u.get("lhs"))
+            if key is None:
+                raise NotAffine("assignment to %s" % ir.show(u.get("lhs")))
+            if u["op"] == "=":
+                env[key] = ev2(u["rhs"], env, assumptions)
+            elif u["op"] in ("+=", "-="):
+                cur = ev2(u["lhs"], env, assumptions)
+                r = ev2(u["rhs"], env, assumptions)
+                env[key] = cur + r if u["op"] == "+=" else cur - r
+            else:
+                raise NotAffine("operator %s" % u["op"])
+            continue
+        if k == "Un" and u.get("op") in ("pre++", "post++", "pre--", "post--"):
+            key = key_of(u.get("e"))
+            if key is None:
+                raise NotAffine("update of %s" % ir.show(u.get("e")))
+            env[key] = ev2(u["e"], env, assumptions) + Lin(1 if "++" in u["op"] else -1)
+            continue
+        if k in ("Call", "MCall", "OpCall"):
+            if on_call(u, env, events, assumptions) is False:
+                raise NotAffine("call %s" % ir.show(u)[:60])
+            continue
+        raise NotAffine("statement %s" % k)
+    return "end"
